@@ -20,8 +20,6 @@ NOT_APPLICABLE = {
            "hence set/dict order) cannot be a solver variable and a whole generation run per side is beyond any per-path budget.",
     "C18": "Needs a full generation run plus a pytest subprocess per module and seed: whole-program, I/O- and subprocess-bound; "
            "its rendering kernels are decided under C19/C20/C23.",
-    "C22": "Minimisation decides by re-executing real suites in threads on an instrumented SUT and comparing real coverage; "
-           "with a stub executor the claim would be about the stub, and CrossHair cannot follow the executor's threads.",
     "C30": "The state to restore is process-global and changed through C-level objects (os.dup2 on fds 0-2, sys.stdout, "
            "logging's global level, random's hidden instance) from a worker thread; no symbolic input exists.",
     "C31": "Requires a real subprocess, multiprocess pickling and pipes, and compares two real executions; not encodable.",
